@@ -67,7 +67,7 @@ P("C09", "split, tokenize and replace partition the text exactly; join inverts s
   assumptions=["results that are not well-formed UTF-8 (only reachable from from_validated subjects) may be rejected with ST::unicode_error by replace and by the validating const char* overloads; accepted there and nowhere else",
                "the char overload of split is exercised for 0x01..0x7F only (documented contract assertion otherwise)"],
   exhaustive={"quick": "split: subjects len<=5 x separators len<=2 over {a,b,A,',',';',NUL} x max in {0,1,2,SIZE_MAX} x {cs,ci}; replace: subjects len<=4 x patterns len<=2 x 9 replacements x {cs,ci}",
-              "thorough": "split: subjects len<=7 x separators len<=3 over {a,b,A,',',';',NUL} x max in {0,1,2,SIZE_MAX} x {cs,ci}; replace: subjects len<=6 x patterns len<=2 x 9 replacements x {cs,ci}"},
+              "thorough": "split: subjects len<=6 x separators len<=3 over {a,b,A,',',';',NUL} x max in {0,1,2,SIZE_MAX} x {cs,ci}; replace: subjects len<=5 x patterns len<=2 x 9 replacements x {cs,ci}"},
   dbits={"quick": 24, "thorough": 27})
 
 P("C06", "comparison is a total order; operators, overloads and hashes agree with it", "order",
